@@ -1,6 +1,6 @@
 #!/usr/bin/env python3
 """C16 — admission validation is total and sound (specs/api/Validation*.tla, TraceValid.tla; harness validh)."""
-import json, os, sys, time, shutil, random
+import json, os, re, sys, time, shutil, random
 sys.path.insert(0, os.path.join(os.path.dirname(os.path.abspath(__file__)), ".."))
 import vlib
 from vlib import Infra
@@ -27,6 +27,44 @@ def main(tier, replay):
         binp = os.path.join(wd, "validh.test")
         vlib.go_test_build("./validh", binp)
         traces, crashed = vlib.run_test_driver(binp, tc, wd, timeout=1500)
+        if not replay:
+            # second pass: every object that was accepted and applied is also applied as an UPDATE of another such object (pairs chosen by the seed:
+            # each object once as the new version, after a random predecessor; plus every ordered pair of the objects that differ only in their
+            # flow-control or serving section from the default object, in the thorough tier)
+            okc = [c for c in tc if str(c["id"]) not in crashed and traces.get(str(c["id"]), {}).get("validate") == "accepted" and traces[str(c["id"])].get("apply") == "ok" and c["o"].get("meta", "ok") not in ("noname",)]
+            pairs = []
+            for c in okc:
+                p = rng.choice(okc)
+                pairs.append({"id": 100000 + len(pairs) + 1, "o": c["o"], "must": c["must"], "var": c["var"], "prev": {"id": p["id"], "o": p["o"], "must": p["must"], "var": p["var"]}})
+            # every ordered pair of the accepted objects that differ from the default object only in their serving section, resp. only in their
+            # flow-control section (a sample of those in the quick tier)
+            def only(sec):
+                keys = {"serving": ("serving",), "flow": ("members", "num", "strat", "sname", "noschema")}[sec]
+                base = None
+                out = []
+                for c in okc:
+                    if c["var"] != okc[0]["var"]:
+                        continue
+                    out.append(c)
+                dflt = [c for c in out if c["o"].get("serving") == "none" and c["o"].get("members") == ["mif"] and c["o"].get("num") == "ok" and c["o"].get("strat") == "" and c["o"].get("cred") == "token"
+                        and c["o"].get("ep") == "https" and c["o"].get("policy") == "ok" and c["o"].get("meta") == "ok" and c["o"].get("ca") == "insecure" and c["o"].get("rate") == "zero" and not c["o"].get("noschema") and c["o"].get("sname") == "s"]
+                if not dflt:
+                    return []
+                d0 = dflt[0]["o"]
+                return list({vlib.canon(c["o"]): c for c in out if all(c["o"].get(k) == d0.get(k) for k in d0 if k not in keys)}.values())
+            sv, fl = only("serving"), only("flow")
+            flp = [(c, p) for c in fl for p in fl if c is not p]
+            rng.shuffle(flp)
+            for c, p in [(c, p) for c in sv for p in sv if c is not p] + (flp[:150] if tier == "quick" else flp):
+                pairs.append({"id": 100000 + len(pairs) + 1, "o": c["o"], "must": c["must"], "var": c["var"], "prev": {"id": p["id"], "o": p["o"], "must": p["must"], "var": p["var"]}})
+            if tier != "quick":
+                for _ in range(3 * len(okc)):
+                    c, p = rng.choice(okc), rng.choice(okc)
+                    pairs.append({"id": 100000 + len(pairs) + 1, "o": c["o"], "must": c["must"], "var": c["var"], "prev": {"id": p["id"], "o": p["o"], "must": p["must"], "var": p["var"]}})
+            tr2, cr2 = vlib.run_test_driver(binp, pairs, wd, timeout=1500, name="pairs")
+            tc = tc + pairs
+            traces.update(tr2)
+            crashed.update(cr2)
         by_id = {str(c["id"]): c for c in tc}
         recs = []
         for c in tc:
@@ -56,11 +94,12 @@ def main(tier, replay):
                 if key in seen:
                     continue
                 seen.add(key)
-                v.violation("case-%d" % rid, {"case": by_id[str(rid)], "validate": rby[rid]["validate"], "apply": rby[rid]["apply"], "detail": rby[rid]["detail"], "what": parts[2]})
+                case = dict(by_id[str(rid)])
+                v.violation("case-%d" % rid, {"case": case, "validate": rby[rid]["validate"], "apply": rby[rid]["apply"], "detail": rby[rid]["detail"], "what": parts[2]})
         rc = v.finish()
         cov = {"evaluations": len(recs), "distinct_nontrivial": len({vlib.canon(r["o"]) for r in recs}),
                "rule": "abstract objects = every class of every section (endpoints, client credentials/CA/rate, secure serving, flow-control members x numeric class x strategy x name, policies, metadata) "
-                       "with the other sections at their defaults plus section pairs (TLC ValidationGen); each concretised with %d variant(s); accepted objects are applied by a real gateway controller and a real limiter server" % nvar,
+                       "with the other sections at their defaults plus section pairs (TLC ValidationGen); each concretised with %d variant(s); accepted objects are applied by a real gateway controller and a real limiter server - alone, and as an UPDATE of another accepted object with instance reports before and after" % nvar,
                "samples": [recs[0], recs[len(recs) // 2]], "accepted": sum(1 for r in recs if r["validate"] == "accepted"), "rejected": sum(1 for r in recs if r["validate"] == "rejected"),
                "must_reject_cases": sum(1 for c in tc if c["must"]), "states": gen.distinct + tv.distinct, "transitions": gen.generated + tv.generated,
                "traces_validated_against_impl": len(recs) - nrej, "checker_cmd": gen.cmd + "; tlc TraceValid.tla", "exhaustive": False}
